@@ -221,10 +221,15 @@ LoadStatus DepsLog::Load(const string& path, State* state, string* err) {
                           (uint64_t)(unsigned int)deps_data[1]);
       deps_data += 3;
       int deps_count = (size / 4) - 3;
+      if (deps_count < 0 || out_id < 0 || out_id >= (int)nodes_.size()) {
+        read_failed = true;
+        break;
+      }
 
       for (int i = 0; i < deps_count; ++i) {
         int node_id = deps_data[i];
-        if (node_id >= (int)nodes_.size() || !nodes_[node_id]) {
+        if (node_id < 0 || node_id >= (int)nodes_.size() ||
+            !nodes_[node_id]) {
           read_failed = true;
           break;
         }
@@ -242,14 +247,18 @@ LoadStatus DepsLog::Load(const string& path, State* state, string* err) {
         ++unique_dep_record_count;
     } else {
       int path_size = size - 4;
-      if (path_size <= 0) {
+      // Path records are always padded to a multiple of 4 bytes.
+      if (path_size <= 0 || (size % 4) != 0) {
         read_failed = true;
         break;
       }
       // There can be up to 3 bytes of padding.
-      if (buf[path_size - 1] == '\0') --path_size;
-      if (buf[path_size - 1] == '\0') --path_size;
-      if (buf[path_size - 1] == '\0') --path_size;
+      for (int i = 0; i < 3 && path_size > 0 && buf[path_size - 1] == '\0'; ++i)
+        --path_size;
+      if (path_size == 0) {
+        read_failed = true;
+        break;
+      }
       StringPiece subpath(buf, path_size);
       // It is not necessary to pass in a correct slash_bits here. It will
       // either be a Node that's in the manifest (in which case it will already
